@@ -509,6 +509,90 @@ class ReceiveDirectoryDrop(Job):
         return None
 
 
+class MemFile(io.BytesIO):
+    """a real in-memory file (seek/tell/truncate semantics of a file object): what ends up 'on disk' is getvalue() at close"""
+    def __init__(self, log, name):
+        io.BytesIO.__init__(self)
+        self.log, self.name = log, name
+        self.final = None
+
+    def close(self):
+        if self.final is None:
+            self.final = self.getvalue()
+            self.log.append(("close", self.name))
+        io.BytesIO.close(self)
+
+
+class ReceiveContent(Job):
+    """byte content, not only byte counts: three records whose contents the solver picks from {data, all-zero bytes, empty} go through the real
+    transit.Connection consumer path (FileConsumer) into a real file object; on success the file holds exactly their concatenation"""
+    name = "receive_file_content"
+    functions = ["transit.Connection.writeToFile", "transit.FileConsumer.write", "cli.cmd_receive.Receiver._parse_offer/_transfer_data/_write_file"]
+    shadows = ["cmd_receive.os (recorded), open (in-memory file with real seek/tell semantics), tqdm; real hashlib"]
+    must_reach = ("nt:success",)
+    PATTERNS = [b"ab", b"\0\0\0", b"", b"\0", b"xyz\0"]
+    bounds = dict(records=3, record_contents=[repr(p) for p in PATTERNS])
+
+    def run(self, picks):
+        from harness import c05
+        log = []
+        fs = c05.FS()
+        fs.mut = log
+        conn, sent = mk_conn()
+        files = []
+
+        def fake_open(path, mode="r", *a, **k):
+            f = MemFile(log, path)
+            files.append(f)
+            return f
+        recs = [self.PATTERNS[i] for i in picks]
+        X = sum(len(r) for r in recs)
+        args = SimpleNamespace(relay_url="ws://x", output_file=None, cwd="/w", accept_file=True, stderr=io.StringIO(), stdout=io.StringIO(),
+                               timing=DebugTiming(), hide_progress=True)
+        r = CR.Receiver(args)
+        r._transit_receiver = SimpleNamespace(connect=lambda: defer.succeed(conn))
+        w = SimpleNamespace(send_message=lambda m: None)
+        sh = [(CR, "os", c05.make_os(fs)), (CR, "open", fake_open), (CR, "estimate_free_space", lambda p: None), (CR, "naturalsize", lambda n: "N"),
+              (CR, "tqdm", FakeTqdm), (CR, "print", lambda *a, **k: None)]
+        result = []
+        with loader.shadow(*sh):
+            d = r._parse_offer({"file": {"filename": "name", "filesize": X}}, w)
+            d.addCallbacks(lambda res: result.append(("ok", res)), lambda f: result.append(("err", f.type.__name__)))
+            for rec in recs:
+                if result:
+                    break
+                conn.recordReceived(rec)
+        return result, files, recs, sent
+
+    def verdict(self, picks):
+        result, files, recs, sent = self.run(picks)
+        want = b"".join(recs)
+        if not (result and result[0][0] == "ok"):
+            return "honest transfer of %r did not succeed: %r" % (recs, result)
+        if len(files) != 1 or files[0].final is None:
+            return "temporary file not written/closed exactly once"
+        if files[0].final != want:
+            return "success reported but the file holds %r, the sender's bytes were %r" % (files[0].final, want)
+        import hashlib
+        acks = [a for a in sent]
+        if len(acks) != 1 or hashlib.sha256(want).hexdigest() not in acks[0].decode("ascii", "replace"):
+            return "acknowledgement does not carry the hash of the bytes received"
+        return None
+
+    def scenario(self):
+        picks = [eng().choose(len(self.PATTERNS), "rec%d" % i) for i in range(3)]
+        eng().inputs["picks"] = picks
+        v = self.verdict(picks)
+        check(v is None, "file content: %s" % v)
+        eng().note("nt:success")
+
+    def key(self, inp, label):
+        return "file content differs from the bytes sent although success was reported"
+
+    def replay(self, inp, label):
+        return self.verdict(list(inp["picks"]))
+
+
 class WireSamples(Job):
     """CONCRETE SAMPLES, not solver-decided (json is C code the engine cannot enter): text messages and offered names travel from the real
     Sender._build_offer/_send_data through the real util.dict_to_bytes / bytes_to_dict into the real Receiver._parse_offer: the text printed is exactly
@@ -594,7 +678,7 @@ class WireSamples(Job):
 
 def jobs(tier):
     thorough = tier == "thorough"
-    return [ReceiveFile(n) for n in ((1, 2, 3, 4) if thorough else (1, 2, 3))] + [SenderAck(), DirectoryMembers(), WireSamples(), ReceiveDirectoryDrop()]
+    return [ReceiveFile(n) for n in ((1, 2, 3, 4) if thorough else (1, 2, 3))] + [SenderAck(), DirectoryMembers(), WireSamples(), ReceiveDirectoryDrop(), ReceiveContent()]
 
 
 ASSUMPTIONS = [
